@@ -784,7 +784,8 @@ pub fn event_end(sim: &Sim, _key: usize) {
                             }
                         }
                         K::Stream(k) => {
-                            if !k.expected.is_empty() || (k.ended && !k.none_delivered) {
+                            let polled = k.shared.borrow().polls > k.polls_at_pe;
+                            if polled && (!k.expected.is_empty() || (k.ended && !k.none_delivered)) {
                                 viol = Some(("stream.items_left", vec![], format!("stream {} was polled but {} ready items (ended={}) were left undelivered without a pending wake-up", id, k.expected.len(), k.ended)));
                             } else if k.none_delivered && pa != PostAction::Remove {
                                 viol = Some(("stream.not_removed_after_end", vec![], format!("stream {} delivered its final None but did not ask for removal", id)));
@@ -922,8 +923,12 @@ pub fn pe_begin(id: Id, _key: usize) -> bool {
                 c.msgs_in_pe = 0;
             }
             K::Stream(k) => {
-                k.wake_pending = false;
+                // the ping is only drained (and the stream polled) by a registered source
+                if s.sh.registered.get() {
+                    k.wake_pending = false;
+                }
                 k.items_in_pe = 0;
+                k.polls_at_pe = k.shared.borrow().polls;
             }
             _ => {}
         }
